@@ -451,6 +451,10 @@ func (v *c17Env) stamp() {
 		}
 	}
 	v.lnow = v.nowMs()
+	if v.lnow > 25000 {
+		// the registry runs CleanupStaleTransactions by itself every 30 s; the scripts stay below
+		v.ambiguous("the case lasted %d ms: the registry's own periodic cleanup is about to interfere", v.lnow)
+	}
 	v.out(fmt.Sprintf("NOTE t %d", v.lnow))
 }
 
@@ -485,7 +489,8 @@ func (v *c17Env) checkCleanupWindow() {
 		n := len(t.brackets)
 		for i := n - 1; i >= 0 && i >= n-4; i-- {
 			if inside(v.idle, t.brackets[i]) {
-				v.ambiguous("idle limit of client %d's transaction within the uncertainty of a cleanup", t.client)
+				v.ambiguous("idle limit of client %d's transaction within the uncertainty of a cleanup (call at %d..%d ms, cleanup at %d..%d ms)",
+					t.client, t.brackets[i][0], t.brackets[i][1], v.lnow, end)
 			}
 		}
 	}
@@ -1295,7 +1300,11 @@ func runC17(c *Case, out func(string)) {
 	}
 	c17WarmUp()
 	var v *c17Env
+	maxScale, _ := strconv.Atoi(hdrVal(c.Hdr, "maxscale", "16"))
 	scale := c17Scale
+	if scale > maxScale {
+		scale = maxScale
+	}
 	attempts := 0
 	for {
 		attempts++
@@ -1318,7 +1327,7 @@ func runC17(c *Case, out func(string)) {
 			v.finish()
 		}()
 		v.stop()
-		if !v.slipped || scale >= 16 {
+		if !v.slipped || scale*2 > maxScale {
 			break
 		}
 		if os.Getenv("C17_DEBUG") != "" {
@@ -1331,6 +1340,14 @@ func runC17(c *Case, out func(string)) {
 		c17Scale = scale / 2
 	} else if c17Scale > 1 {
 		c17Scale /= 2
+	}
+	if v.slipped {
+		// no attempt was free of timing ambiguity: the case says nothing (counted in META)
+		out("NOTE ambiguous-timing " + strings.ReplaceAll(v.why, " ", "_"))
+		out("X skipped")
+		out("ORACLE ok")
+		out(fmt.Sprintf("META lines=%d svc=%v wiring=%s scale=%d attempts=%d ambiguous=1 nontrivial=0", len(c.Lines), v.svc, v.wiring, scale, attempts))
+		return
 	}
 	for _, l := range v.lines {
 		out(l)
@@ -1347,9 +1364,6 @@ func runC17(c *Case, out func(string)) {
 	sl := 0
 	if v.slipped {
 		sl = 1
-	}
-	if v.slipped {
-		out("NOTE ambiguous-timing " + strings.ReplaceAll(v.why, " ", "_"))
 	}
 	out(fmt.Sprintf("META lines=%d clients=%d svc=%v wiring=%s waits=%d async_ok=%d timeouts=%d after_finish=%d cleaned=%d scale=%d attempts=%d ambiguous=%d nontrivial=%d",
 		len(c.Lines), v.stats.clients, v.svc, v.wiring, v.stats.waits, v.stats.asyncOk, v.stats.timeouts, v.stats.afterFinish, v.stats.cleaned, scale, attempts, sl, nt))
@@ -1536,7 +1550,7 @@ func genC17(w *bufio.Writer, seed int64, n int, tier string) {
 	}
 	if tier == "thorough" {
 		// the registry's own limit on waiting for the lock (10 s, no deadline from the client)
-		fmt.Fprintf(w, "case t%d-0 svc=0 peer=1 wiring=ttl idle=150 ttlro=650 ttlrw=450\n", seed)
+		fmt.Fprintf(w, "case t%d-0 svc=0 peer=1 wiring=ttl idle=150 ttlro=650 ttlrw=450 maxscale=1\n", seed)
 		for _, l := range []string{"begin 1 rw 0", "begin 2 rw 0", "begin 3 ro 0", "sleep 5000", "put 1 1 1", "sleep 5200",
 			"commit 1", "begin 4 rw 0", "put 4 2 2", "commit 4", "probe", "dump"} {
 			fmt.Fprintln(w, l)
